@@ -1,6 +1,7 @@
 import LopdfModel.Thm.C02FileStm
 import LopdfModel.Thm.C02ObjStm
 import LopdfModel.Thm.C07
+import LopdfModel.Thm.C02IndirectRef
 import LopdfModel.Spec.GrammarFileStm
 /-
   C02 — WHOLE FILES with OBJECT STREAMS (cross-reference-stream style, one revision): type-2
@@ -83,18 +84,19 @@ def blocksOf (cont : Nat → List (Nat × Obj)) (l : XTable) : List Block :=
   l.filterMap fun p => if isNormalE p.2 && !(cont p.1).isEmpty then some (p.1, memberPairs (cont p.1)) else none
 
 /-- what the file provides for one binding of the cross-reference map -/
-def EntryOk (buf : Bytes) (val : Nat → Nat × Obj) (cont : Nat → List (Nat × Obj)) (p : Nat × XEntry) : Prop :=
+def EntryOk (buf : Bytes) (len : ObjId → Option Int) (val : Nat → Nat × Obj) (cont : Nat → List (Nat × Obj))
+    (p : Nat × XEntry) : Prop :=
   match p.2 with
   | .normal off g =>
     g = (val p.1).1 ∧ off ≤ buf.length ∧
-    (∀ len, pIndirect len none off (buf.drop off) = some ((p.1, g), .plain (val p.1).2)) ∧
+    pIndirect len none off (buf.drop off) = some ((p.1, g), .plain (val p.1).2) ∧
     ((NotObjStm (val p.1).2 ∧ cont p.1 = []) ∨
      (∃ dct c, (val p.1).2 = .stream dct c ∧ Dict.getTypeIs dct OBJSTM = true ∧
         objStmObjects dct c = .ok (memberPairs (cont p.1)) ∧ cont p.1 ≠ []))
   | .compressed _ _ => True
 
 theorem loadSteps_blocks (buf : Bytes) (x : XTable) (N : Nat) (val : Nat → Nat × Obj) (cont : Nat → List (Nat × Obj)) :
-    ∀ (l : XTable) (os : LObjects) (bl : List Block), (∀ p ∈ l, EntryOk buf val cont p) →
+    ∀ (l : XTable) (os : LObjects) (bl : List Block), (∀ p ∈ l, EntryOk buf (lengthOf buf x (N + 1) []) val cont p) →
     l.foldl (loadStep buf x N) (.ok (os, bl)) = .ok (loadedOfN val os l, bl ++ blocksOf cont l) := by
   intro l
   induction l with
@@ -338,7 +340,7 @@ theorem loadDoc_of_defined_gen (file ver : Bytes) (xs : Nat) (xn : XTable) (size
     (g3 : xrefAndTrailer (file.drop xs) = .ok (xn, size0, trn))
     (g4 : prevLoop file (file.length + 2) (trn.get PREV) [] xn (trn.remove PREV) = .ok (x0, tr0))
     (henc : tr0.get ENCRYPT = none) (hmax : x0.maxId + 1 < 4294967296)
-    (hent : ∀ k e, x0.get k = some e → EntryOk file val cont (k, e))
+    (hent : ∀ k e, x0.get k = some e → EntryOk file (lengthOf file x0 (x0.sorted.length + 1) []) val cont (k, e))
     (hcont : ∀ k, (∀ off g, x0.get k ≠ some (.normal off g)) → cont k = [])
     (hlisted : ∀ k, ∀ p ∈ cont k, ∃ i, x0.get p.1 = some (.compressed k i)) :
     ∃ L, loadDoc file = .ok L ∧ L.version = ver ∧ L.trailer = tr0 ∧ L.xrefStart = xs ∧ L.maxId = x0.maxId ∧
@@ -459,7 +461,7 @@ theorem loadDoc_of_defined_objstm (file ver : Bytes) (xs : Nat) (x0 : XTable) (s
     (g2 : getXrefStart file = some xs) (g2' : xs ≤ file.length)
     (g3 : xrefAndTrailer (file.drop xs) = .ok (x0, size0, tr0))
     (hprev : tr0.get PREV = none) (henc : tr0.get ENCRYPT = none) (hmax : x0.maxId + 1 < 4294967296)
-    (hent : ∀ k e, x0.get k = some e → EntryOk file val cont (k, e))
+    (hent : ∀ k e, x0.get k = some e → EntryOk file (lengthOf file x0 (x0.sorted.length + 1) []) val cont (k, e))
     (hcont : ∀ k, (∀ off g, x0.get k ≠ some (.normal off g)) → cont k = [])
     (hlisted : ∀ k, ∀ p ∈ cont k, ∃ i, x0.get p.1 = some (.compressed k i)) :
     ∃ L, loadDoc file = .ok L ∧ L.version = ver ∧ L.trailer = tr0 ∧ L.xrefStart = xs ∧ L.maxId = x0.maxId ∧
@@ -469,26 +471,59 @@ theorem loadDoc_of_defined_objstm (file ver : Bytes) (xs : Nat) (x0 : XTable) (s
 
 /-! ### from the file grammar -/
 
-theorem entryOk_of_binding (file : Bytes) (val : Nat → Nat × Obj) (cont : Nat → List (Nat × Obj)) (k : Nat)
-    (e : XEntry) (h : BindingDefined file val cont k e) : EntryOk file val cont (k, e) := by
+theorem indirectRef_any {id lid : ObjId} {dct : Dict} {data ibs : Bytes} (h : DerivesIndirectRef id lid dct data ibs)
+    (sp0 rest : Bytes) (hsp0 : DerivesSpace sp0) (len : ObjId → Option Int) (expected : Option ObjId) (base : Nat)
+    (hres : len lid = some (data.length : Int)) (hexp : ∀ e, expected = some e → e = id) :
+    pIndirect len expected base (sp0 ++ (ibs ++ rest)) =
+      some (id, .plain (.stream (dct.set LENGTH (.int data.length)) data)) := by
+  match h with
+  | .mk d n g ln lg es d1 sp1 d2 sp2 sp3 sp ebs sp5 bl e data e' sp6 h1 hn hs1 h2 hg hs2 hsp3 hsp hes hd hsp5 hbl he
+      hlen he' hsp6 =>
+    have he2 : IsStreamEol e := by cases he; exact .lf; exact .crlf
+    have he3 : IsOptEol e' := by cases he' with | none => exact .none | some _ h => exact .some _ h
+    have := indirect_stream_ref_complete n g sp0 d1 sp1 d2 sp2 sp3 sp sp5 bl e data e'
+      (sp6 ++ ([101, 110, 100, 111, 98, 106] ++ rest)) len expected base hsp0 h1 hn ⟨hs1.1, hs1.2⟩
+      h2 hg ⟨hs2.1, hs2.2⟩ hsp3 hsp hes hd hsp5 hbl he2 ln lg hlen hres he3 hexp
+    simpa [OBJ_KW, STREAM_KW, ENDSTREAM_KW, streamSpelling] using this
+
+/-- the reader resolves an indirect `Length` that the cross-reference map binds and the file
+defines as an integer object -/
+theorem lengthOf_defined (file : Bytes) (x : XTable) (f : Nat) (lid : ObjId) (loff : Nat) (n : Int)
+    (hx : x.get lid.1 = some (.normal loff lid.2)) (hdef : DefinesAt file loff lid.1 lid.2 (.int n)) :
+    lengthOf file x (f + 1) [] lid = some n := by
+  obtain ⟨h2, sp', ibs, rest, h3, h4, h5, _⟩ := hdef
+  have hp := indirect_any h5 sp' rest h4 (lengthOf file x f [lid]) (some lid) loff
+    (by intro e he; injection he with he; rw [← he])
+  have hle : ¬ (loff > file.length) := by omega
+  unfold lengthOf
+  simp only [List.contains_nil, Bool.false_eq_true, if_false, hx, ne_eq, not_true_eq_false, hle, h3, hp]
+
+theorem entryOk_of_binding (file : Bytes) (x : XTable) (f : Nat) (val : Nat → Nat × Obj)
+    (cont : Nat → List (Nat × Obj)) (k : Nat)
+    (e : XEntry) (h : BindingDefined file x val cont k e) :
+    EntryOk file (lengthOf file x (f + 1) []) val cont (k, e) := by
   cases e with
   | compressed c i => simp [EntryOk]
   | normal off g =>
     simp only [BindingDefined] at h
     obtain ⟨hg, hkind⟩ := h
     simp only [EntryOk]
-    rcases hkind with ⟨⟨h2, sp', ibs, rest, h3, h4, h5, h6⟩, hc⟩ | ⟨dct, content, hv, h2, sp', ibs, rest, first, nval, h3, h4, h5, hty, hfl, hfi, hn, hos, hne, hnd⟩
+    rcases hkind with ⟨⟨h2, sp', ibs, rest, h3, h4, h5, h6⟩, hc⟩ |
+      ⟨dct, content, hv, h2, sp', ibs, rest, first, nval, h3, h4, h5, hty, hfl, hfi, hn, hos, hne, hnd⟩ |
+      ⟨lid, loff, dct, data, hv, ⟨h2, sp', ibs, rest, h3, h4, h5⟩, hx, hld, hno, hc⟩
     · refine ⟨hg, h2, ?_, Or.inl ⟨h6, hc⟩⟩
-      intro len
       rw [h3]
-      exact indirect_any h5 sp' rest h4 len none off (by intro e he; cases he)
+      exact indirect_any h5 sp' rest h4 _ none off (by intro e he; cases he)
     · refine ⟨hg, h2, ?_, Or.inr ⟨dct, content, hv, ?_, ?_, hne⟩⟩
-      · intro len
-        rw [h3, hv]
-        exact indirect_any h5 sp' rest h4 len none off (by intro e he; cases he)
+      · rw [h3, hv]
+        exact indirect_any h5 sp' rest h4 _ none off (by intro e he; cases he)
       · have : Dict.get dct TYPE = some (Obj.name OBJSTM) := hty
         simp [Dict.getTypeIs, this, Obj.asName]
       · exact objStmObjects_complete hos dct nval (by simp [Dict.has, FILTER, hfl]) hfi hn hne hnd
+    · refine ⟨hg, h2, ?_, Or.inl ⟨hno, hc⟩⟩
+      rw [h3, hv]
+      exact indirectRef_any h5 sp' rest h4 _ none off (lengthOf_defined file x f lid loff _ hx hld)
+        (by intro e he; cases he)
 
 /-- **Whole files with object streams (cross-reference-stream style, one revision), every
 spelling.**  As `loadDoc_complete_stream`, and now the rows may be of type 2: every type-1 binding
@@ -515,7 +550,7 @@ theorem loadDoc_complete_objstm {id : ObjId} {ibs : Bytes} (ver e0 body : Bytes)
     (file : Bytes)
     (hfile : file = (PDF_KW ++ (ver ++ (e0 ++ body))) ++ (ibs ++ (sp7 ++ (STARTXREF ++ (e1 ++ (s1 ++ (ds ++
       (s2 ++ (e2 ++ (EOF_MARK ++ post))))))))))
-    (hdef : ∀ k e, (streamTableOf subs).get k = some e → BindingDefined file val cont k e)
+    (hdef : ∀ k e, (streamTableOf subs).get k = some e → BindingDefined file (streamTableOf subs) val cont k e)
     (hcont : ∀ k, (∀ off g, (streamTableOf subs).get k ≠ some (.normal off g)) → cont k = [])
     (hlisted : ∀ k, ∀ p ∈ cont k, ∃ i, (streamTableOf subs).get p.1 = some (.compressed k i)) :
     ∃ L, loadDoc file = .ok L ∧ L.version = ver ∧
@@ -525,6 +560,6 @@ theorem loadDoc_complete_objstm {id : ObjId} {ibs : Bytes} (ver e0 body : Bytes)
   obtain ⟨g0, g1, g2, g2', g3⟩ := streamFile_parts ver e0 body dct size w1 w2 w3 subs sp7 e1 s1 ds s2 e2 post hv he0 hX
     hF hS hW hI hok hrows hwid he1 hs1 hds hs2 he2 hpost hshort file hfile
   exact loadDoc_of_defined_objstm file ver _ _ _ _ val cont g0 g1 g2 g2' g3 hprev henc hmax
-    (fun k e hke => entryOk_of_binding file val cont k e (hdef k e hke)) hcont hlisted
+    (fun k e hke => entryOk_of_binding file _ _ val cont k e (hdef k e hke)) hcont hlisted
 
 end Lopdf.Grammar
